@@ -67,7 +67,7 @@ def run(ctx):
     if binp is None:
         ctx.violation("harness-build", {"log": bout[-4000:]}, "harness c22 does not build against /repo", no_input=True)
         return
-    ncases = 1500 if ctx.quick else 40000
+    ncases = 1500 if ctx.quick else 16000
     maxn = 12 if ctx.quick else 60
     cases = []
     # corpus first: fixed regression shapes
@@ -76,7 +76,7 @@ def run(ctx):
     cases.extend(corpus)
     while len(cases) < ncases:
         big = (not ctx.quick) and ctx.rng.random() < 0.02
-        cases.append(gen_graph(ctx.rng, 200 if big else maxn, ctx.rng.choice(["dag", "dag", "cycle"])))
+        cases.append(gen_graph(ctx.rng, 120 if big else maxn, ctx.rng.choice(["dag", "dag", "cycle"])))
     inp = "\n".join("%d;%s" % (n, ",".join("%d-%d:%s" % (a, b, k) for (a, b), k in zip(es, ks))) for n, es, ks in cases) + "\n"
     rc, outp = rust.run(binp, input=inp)
     lines = [l for l in outp.split("\n") if l.strip()]
@@ -95,14 +95,14 @@ def run(ctx):
             stats["panic"] += 1
             impl, cert = "IPanic", []
         items.append("(%s, %s, [%s])" % (coq_graph(n, es), impl, ";".join(map(str, cert))))
-    nsh = min(NCPU, max(1, len(items) // 200))
+    nsh = max(1, len(items) // 250)
     shards = []
     per = (len(items) + nsh - 1) // nsh
     for k in range(nsh):
         chunk = items[k * per:(k + 1) * per]
         shards.append("Definition cs : list (graph * impl_res * list nat) := [\n%s\n].\nEval vm_compute in (judge_all cs)." % ";\n".join(chunk))
     try:
-        res = coq.run_cases(ctx, "c22", "From SwayV Require Import Base.Util C22.Model C22.Spec C22.Judge.", shards)
+        res = coq.run_cases(ctx, "c22", "From SwayV Require Import Base.Util C22.Model C22.Spec C22.Judge.", shards, timeout=2400)
     except RuntimeError as e:
         ctx.violation("model-eval", {"log": str(e)[-3000:]}, "C22 model/judge could not be evaluated (correspondence C22.corr/toposort_exact not checked)", no_input=True)
         return
